@@ -47,7 +47,8 @@ REASONS = [
     (r"parser::ParserState::<'a>::get_(double|float) \| Slice:str \| parser::ParserState::get_token_text\(\.\.\)\[2\.\.\] \| #0", "guarded by starts_with(\"0x\"/\"0X\"): two ASCII bytes", None),
     (r"parser::ParserState::<'a>::get_integer \| Slice:str \| parser::ParserState::get_token_text\(\.\.\)\[2\.\.\] \| #0", "guarded by len > 2 && starts_with(\"0x\"/\"0X\")", None),
     (r"parser::ParserState::<'a>::get_identifier \| BoundsCheck \| len=len\(parser::ParserState::get_token_text\(\.\.\)\) index=0 \| #0", "Identifier tokens are never empty: every branch of tokenize_core that pushes one has consumed at least its first character", {"dominating_calls": ["parser::ParserState::<'a>::expect_token"]}),
-    (r"parser::ParserState::<'a>::get_string \| Slice:str \| local:&str\[1\.\.\(len\(local:&str\) Sub 1\)\] \| #0", "String tokens produced by tokenize_core span an opening and a closing ASCII quote (find_string_end fails otherwise), so len >= 2 when the text starts with a quote", {"dominating_calls": ["parser::ParserState::<'a>::expect_token"]}),
+    (r"parser::ParserState::<'a>::get_string \| Slice:str \| local:&str\[1\.\.\(len\(local:&str\) Sub 1\)\] \| #0", "guarded in the same function by len >= 2 && starts_with('\"') && ends_with('\"'): 1 <= len-1 and both cut points are next to a one-byte ASCII quote, hence char boundaries (before fix 6cfdbd8 the guard was starts_with only and an A2ML-block String token consisting of one quote panicked here)",
+     {"implied": [[r"starts_with\(.*, '\"'\)", True], [r"ends_with\(.*, '\"'\)", True], [r"len\(.*\) < 2_usize", False]]}),
     (r"parser::ParserState::<'a>::get_line_offset \| Overflow:Sub \| arg1\.token_cursor\.tokens\[\]\.line Sub arg1\.token_cursor\.tokens\[\]\.line \(u32\) \| #0", "only evaluated when both tokens come from the same file id; within one file tokenize_core assigns non-decreasing line numbers", None),
     (r"parser::ParserState::<'a>::get_line_offset \| BoundsCheck \| len=len\(arg1\.token_cursor\.tokens\) index=0 \| #0", "get_line_offset is only called after a token was consumed, so the token list is not empty", None),
     (r"parser::ParserState::<'a>::get_line_offset \| Overflow:Sub \| arg1\.token_cursor\.tokens\[\]\.line Sub 1 \(u32\) \| #0", "line numbers start at 1 in tokenize_core", None),
